@@ -279,7 +279,7 @@ def gen_conn(rng, ptype, authed_hint=False, chans=()):
     if ptype == 90:
         kind = b"session" if authed_hint else rng.choice([b"session", b"direct-tcpip", b"x11", b"forwarded-tcpip",
                                                             b"auth-agent@openssh.com", b"zz", b""])
-        chanid = rng.choice([0, 1, 7, 2 ** 32 - 1, rng.randrange(2 ** 32)])
+        chanid = rng.choice([0, 1, 7, 0xfeffffff, 0xff000000, 2 ** 32 - 1, rng.randrange(2 ** 32)])
         payload = s_(kind) + struct.pack(">III", chanid, 2 ** 21, 2 ** 15)
         if kind == b"direct-tcpip":
             payload += s_(b"127.0.0.1") + struct.pack(">I", 22) + s_(b"127.0.0.1") + struct.pack(">I", 4000)
@@ -442,6 +442,7 @@ def run_session(ctx, Session, hostkey, steps, stats, control=True, rekey_at=None
             if is_conn and 80 <= ptype <= 100 and not pre_authed:
                 apps = [ev for ev in trace if ev[0] == "app"]
                 bad = None
+                refusal = False
                 if apps:
                     bad = "the application was consulted (%s) before authentication" % apps[0][2]
                 elif chans or queue:
@@ -453,13 +454,13 @@ def run_session(ctx, Session, hostkey, steps, stats, control=True, rekey_at=None
                 elif ptype == 80 and sent != [b"\x52"]:
                     bad = "a pre-auth global request was not answered by exactly one REQUEST_FAILURE"
                 elif ptype == 90:
-                    want = b"\x5c" + struct.pack(">I", pk[2]) + struct.pack(">I", 1) + s_(b"") + s_(b"en")
-                    if sent != [want]:
-                        bad = "a pre-auth channel open was not answered by CHANNEL_OPEN_FAILURE(administratively prohibited)"
+                    bad = refusal_defect(sent, pk[2])
+                    refusal = bool(bad)
                 elif ptype not in (80, 90) and any(m[:1] not in (b"\x03", b"\x01") for m in sent):
                     bad = "unexpected reply to a pre-auth connection-layer message"
                 if bad:
-                    ctx.fail("preauth-service-reached:%d%s" % (ptype, ":in-kex" if in_kex else ""),
+                    ctx.fail(("preauth-refusal-malformed:%d%s" if refusal else "preauth-service-reached:%d%s") % (
+                                 ptype, ":in-kex" if in_kex else ""),
                              bad + (" (server-initiated key exchange in flight)" if in_kex else ""),
                              case=case_repr(steps[:i + 1], rekey_at),
                              expected="refusal only, no callback, no channel",
@@ -516,6 +517,117 @@ def gss_swap_sessions(ctx, Session, hostkey, stats):
                          observed=repr(apps))
         finally:
             sess.close()
+
+
+def refusal_defect(sent, sender_channel):
+    """Decode what the peer received for an unauthenticated CHANNEL_OPEN and compare it field by field with the
+    SSH_MSG_CHANNEL_OPEN_FAILURE RFC 4254 section 5.1 prescribes for THAT request:
+    byte 92, uint32 recipient channel (= the request's sender channel), uint32 reason code, string description,
+    string language tag, nothing else."""
+    if len(sent) != 1:
+        return "a pre-auth channel open was answered by %d messages instead of one CHANNEL_OPEN_FAILURE" % len(sent)
+    raw = sent[0]
+    if raw[:1] != b"\x5c":
+        return "a pre-auth channel open was answered by message type %d, not CHANNEL_OPEN_FAILURE" % (raw[0] if raw else -1)
+    if len(raw) < 9:
+        return "CHANNEL_OPEN_FAILURE too short to hold recipient channel and reason code"
+    recipient, reason = struct.unpack(">II", raw[1:9])
+    if recipient != sender_channel:
+        return ("CHANNEL_OPEN_FAILURE names recipient channel %d (0x%x) but the request's sender channel was %d (0x%x)"
+                % (recipient, recipient, sender_channel, sender_channel))
+    if reason != 1:
+        return "CHANNEL_OPEN_FAILURE reason code %d, expected SSH_OPEN_ADMINISTRATIVELY_PROHIBITED (1)" % reason
+    rest = raw[9:]
+    fields = []
+    for _ in range(2):
+        if len(rest) < 4 or len(rest) < 4 + struct.unpack(">I", rest[:4])[0]:
+            return "CHANNEL_OPEN_FAILURE description / language tag strings are malformed"
+        n = struct.unpack(">I", rest[:4])[0]
+        fields.append(rest[4:4 + n])
+        rest = rest[4 + n:]
+    if rest:
+        return "CHANNEL_OPEN_FAILURE carries %d trailing bytes" % len(rest)
+    if fields != [b"", b"en"]:
+        return "CHANNEL_OPEN_FAILURE description / language tag are %r" % fields
+    return None
+
+
+def refusal_sessions(ctx, Session, hostkey, stats):
+    """Several unauthenticated requests in a row on ONE transport, with different sender channels (boundary values
+    of the uint32 / adaptive-int encodings), kinds and request types, before and after failed / partial auth: each
+    refusal is decoded and must answer THAT request.  Returns [(steps, canonical)] for the model comparison."""
+    base = {"res": 2, "gss": False, "mechok": True, "tok": 1, "micok": True, "kexctx": False, "banner": False}
+
+    def chopen(chanid, kind=b"session"):
+        return (90, s_(kind) + struct.pack(">III", chanid, 2 ** 21, 2 ** 15), dict(base),
+                ("PConn", 90, chanid, True, True), True)
+
+    def greq(name=b"tcpip-forward", want=True):
+        return (80, s_(name) + bytes([int(want)]) + s_(b"127.0.0.1") + struct.pack(">I", 2222), dict(base),
+                ("PConn", 80, 0, True, True), True)
+
+    def auth(method, res):
+        body = {b"password": b"\x00" + s_(b"pw"), b"none": b""}[method]
+        mm = ("Msg50", b"alice", b"ssh-connection", ("BPassword", False) if method == b"password" else ("BNone",))
+        return (50, s_(b"alice") + s_(b"ssh-connection") + s_(method) + body, dict(base, res=res), ("PAuth", mm), True)
+
+    bounds = [0, 0xfeffffff, 0xff000000, 2 ** 32 - 1, 7, 7, 0xff000001, 1]
+    hists = [[chopen(c) for c in bounds],
+             [chopen(c) for c in reversed(bounds)],
+             [greq(), chopen(2 ** 32 - 1), greq(b"keepalive@openssh.com", False), chopen(0), greq(), chopen(0xff000000)],
+             [chopen(5), auth(b"password", 2), chopen(0xff000000, b"direct-tcpip"), auth(b"none", 1), chopen(6, b"x11"),
+              greq(b"cancel-tcpip-forward"), chopen(0xfeffffff, b"")],
+             [chopen(ctx.rng.randrange(2 ** 32)) for _ in range(6)]]
+    out = []
+    for steps in hists:
+        res = run_session(ctx, Session, hostkey, steps, stats, True, None)
+        if res is not None:
+            out.append((steps, res[0]))
+    return out
+
+
+def gss_mic_loopback(ctx):
+    """C14 on a real server transport for gssapi-with-mic (stub GSS context): request, token, MIC.  While
+    GssapiWithMicAuthHandler's table holds unbound functions the first TOKEN ends the transport (nobody is
+    authenticated); once it dispatches, the client is authenticated iff the MIC verifies AND the callback approves."""
+    import paramiko
+    Session = make_classes()
+    hostkey = paramiko.RSAKey.from_private_key_file(os.path.join(ctx.repo, "tests", "_support", "rsa.key"))
+    holder = {}
+    req = s_(b"alice") + s_(b"ssh-connection") + s_(b"gssapi-with-mic") + struct.pack(">I", 1) + s_(b"\x06\x09mech")
+    outcome = set()
+    with c14.gss_patch(holder):
+        for res in (0, 1, 2):
+            for micok in (True, False):
+                sess = Session(hostkey)
+                holder["world"] = sess
+                env = {"res": res, "gss": True, "mechok": True, "tok": 2, "micok": micok, "kexctx": False, "banner": False}
+                steps = [(50, req), (61, s_(b"clienttoken")), (66, s_(b"mic"))]
+                try:
+                    success_sent, asked = False, []
+                    for pt, pl in steps:
+                        if not sess.alive():
+                            break
+                        sess.send(pt, pl, env, True)
+                        success_sent = success_sent or b"\x34" in sess.ts.packetizer.v_sent
+                        asked += [ev for ev in sess.trace if ev[0] == "cb"]
+                    exc = sess.ts.saved_exception
+                    outcome.add("dispatches" if sess.alive() or asked or not isinstance(exc, paramiko.SSHException)
+                                or "TypeError" not in str(exc) else "dead: first TOKEN raises TypeError (fail-closed)")
+                    got = sess.authed() or success_sent
+                    live = bool(asked) or sess.alive()
+                    want = res == 0 and micok and live
+                    ctx.count(("gss-mic-loopback", res, micok), kind="gss-mic-loopback")
+                    if got != want:
+                        ctx.fail("gssapi-with-mic-ignores-callback" if got and res != 0 else
+                                 "gssapi-success-without-valid-mic" if got else "valid-gss-rejected",
+                                 "real server transport, gssapi-with-mic: callback result %d, MIC %s -> authenticated=%r "
+                                 "(must be %r)" % (res, "valid" if micok else "INVALID", got, want),
+                                 case={"sid": b"", "steps": [{"ptype": pt, "payload": pl, "env": env} for pt, pl in steps]},
+                                 expected="authenticated == %r" % want, observed=repr(asked))
+                finally:
+                    sess.close()
+    return sorted(outcome)
 
 
 def inkex_sessions(ctx, Session, hostkey, stats):
@@ -581,6 +693,9 @@ def run(ctx):
                 ctx.sample({"steps": [repr(s[3]) for s in steps], "impl": canon[:80]})
         gss_swap_sessions(ctx, mk, hostkey, stats)
         inkex_sessions(ctx, mk, hostkey, stats)
+        for steps, canon in refusal_sessions(ctx, mk, hostkey, stats):
+            cases.append((model_case(steps), canon))
+            kept.append((steps, canon))
     bad = c14.guarded_mismatches(ctx, "run_loop", "(list (packet * env))", cases, shard=60,
                                  imports="From PV Require Import C39 C14 C15.")
     for i in bad[:3]:
